@@ -3,6 +3,8 @@ operations are interleaved by the seeded scheduler.  After *every* step the inva
 evaluated on *every* actor, which is what makes it an isolation check (C20) besides the
 per-actor sequential checks (C15 channel maps, C16 track lists)."""
 import hashlib
+import re
+import warnings
 import io
 from collections import Counter
 
@@ -96,7 +98,20 @@ def make_item(cls, n, iid, length=None):
     raise HarnessError(cls)
 
 
-def wrong_kind(kind):
+def wrong_kind(kind, cls=None, n=0):
+    """An object that is not an item of a `cls` block.  The 'sibling' kinds are things that look
+    the part: a track of another block type with the very same number of frames, a whole block
+    of the same kind, or of another kind, with that many frames."""
+    if kind == "sibling_track":
+        other = {"data3d": "ft", "ft": "data3d", "emg": "data3d"}.get(cls, "emg")
+        return make_item(other, n, 7)
+    if kind == "sibling_track2":
+        other = {"data3d": "emg", "ft": "emg", "emg": "ft"}.get(cls, "data3d")
+        return make_item(other, n, 8)
+    if kind == "same_block":
+        return new_block(cls if cls in ("emg", "data3d", "ft") else "data3d", n)
+    if kind == "other_block":
+        return new_block({"data3d": "ft", "ft": "emg", "emg": "data3d"}.get(cls, "ft"), n)
     return {"str": "x", "none": None, "int": 3, "array": np.zeros((3, 3)),
             "other_item": Event("e", [1.0])}[kind]
 
@@ -126,6 +141,9 @@ def item_id_from_label(lab):
         return None
 
 
+RAISING_ITSELF = re.compile(r"valid-.*refused|observation-raised")
+
+
 class World2:
     def __init__(self, cfg, focus=None):
         self.cfg = cfg
@@ -136,11 +154,15 @@ class World2:
         seams.set_poison(cfg.get("poison", "none"))
         seams.reset_globals()
         self.poison0 = seams.poison_count()
+        self.werr = cfg.get("warnings") == "error"
+        self.warned_at = None
         self.cls = cfg["cls"]
         self.n = cfg.get("n", 4)
         self.actors = {}
         self.viol = []
         self.stats = Counter()
+        if self.werr:
+            self.stats["fault_warnings_as_errors_runs"] += 1
         self.states = set()
         self.transitions = set()
         self.h = hashlib.sha256()
@@ -148,6 +170,9 @@ class World2:
         self.expect_unchanged = False
 
     def v(self, prop, tag, pattern, detail=None, also=()):
+        if self.warned_at == self.step and RAISING_ITSELF.search(pattern):
+            self.stats["not_judged_stopped_by_warning"] += 1  # see world1.World.v
+            return
         if getattr(self, "fault_prop", None) == prop and prop == "C16" and self.cls in CHANNELLED:
             also = tuple(also) + ("C15",)
         self.viol.append({"prop": prop, "also": list(also), "tag": tag, "pattern": pattern,
@@ -164,10 +189,17 @@ class World2:
         from .world1 import stall_guard
         try:
             with stall_guard():
+                if self.werr:
+                    with warnings.catch_warnings():
+                        warnings.simplefilter("error")
+                        return "ok", fn(*a, **kw)
                 return "ok", fn(*a, **kw)
         except HarnessError:
             raise
         except Exception as e:
+            if isinstance(e, Warning):
+                self.stats["fault_warning_raised"] += 1
+                self.warned_at = self.step
             return "exc", e
 
     # -------------------------------------------------------------- observation
@@ -331,9 +363,16 @@ class World2:
             fn = getattr(self, "op_" + op["op"], None)
             if fn is None:
                 raise HarnessError(f"unknown op {op['op']}")
-            fn(op)
-            if not self.viol:
-                self.check_all(op.get("a"))
+            try:
+                fn(op)
+                if not self.viol:
+                    self.check_all(op.get("a"))
+            except HarnessError:
+                raise
+            except Exception:
+                if not self.degraded:
+                    raise
+                break  # after another property's violation the objects may be in a state the harness cannot walk
             if self.viol:
                 if self.focus is None or any(self.focus == v["prop"] or self.focus in v["also"] for v in self.viol):
                     break
@@ -546,7 +585,7 @@ class World2:
             else:
                 return self.skip()
         else:
-            it = wrong_kind(kindname[5:])
+            it = wrong_kind(kindname[5:], a.cls, a.n)
             if a.cls == "events":
                 return self.skip()
         self.stats["fault_bad_item"] += 1
@@ -684,7 +723,7 @@ class World2:
             elif bad_kind.startswith(("shape", "reassign")):
                 return self.skip()
             else:
-                items[k] = wrong_kind(bad_kind[5:])
+                items[k] = wrong_kind(bad_kind[5:], a.cls, a.n)
             faulty = True
             self.stats["fault_bad_element"] += 1
         if a.cls == "fpcal":
@@ -721,7 +760,12 @@ class World2:
             self.stats["assign_as_" + how] += 1
         a.assigned_list = payload if isinstance(payload, list) else None
         old_ids = [i for _c, i in a.model]
-        old_objs = list(a.obj.tracks) if a.cls in ("data3d", "ft") else None
+        old_objs = None
+        if a.cls in ("data3d", "ft"):
+            k0, old_objs = self.call(lambda: list(a.obj.tracks))
+            if k0 == "exc":
+                self.v("C16", "I-obj", "track-list-unreadable", repr(old_objs)[:120])
+                return
         attr = "tracks" if a.cls in ("data3d", "ft") else "platforms"
         kind, val = self.call(setattr, a.obj, attr, payload)
         self.note("assign", kind, faulty)
@@ -732,18 +776,22 @@ class World2:
                 if kind != "exc":
                     self.v("C16", "I-obj", "invalid-list-accepted", {"bad_at": bad_at, "raise_after": raise_after})
                     return
-                now = list(a.obj.tracks)
-                if len(now) != len(old_objs) or any(x is not y for x, y in zip(now, old_objs)):
+                k2, now = self.call(lambda: list(a.obj.tracks))
+                if k2 == "exc":  # the block's list is now something that cannot even be walked
                     self.v("C16", "I-obj", "failed-assignment-not-rolled-back",
-                           {"before": old_ids[:8], "after": [item_id_from_label(t.label) for t in now][:8]})
+                           {"before": old_ids[:8], "after": "unreadable: " + repr(now)[:80]})
+                elif len(now) != len(old_objs) or any(x is not y for x, y in zip(now, old_objs)):
+                    self.v("C16", "I-obj", "failed-assignment-not-rolled-back",
+                           {"before": old_ids[:8], "after": [item_id_from_label(getattr(t, "label", "")) for t in now][:8]})
                 return
             if kind == "exc":
                 self.v("C16", "I-obj", "valid-list-refused", repr(val)[:160])
                 return
-            now = list(a.obj.tracks)
-            if len(now) != len(items) or any(x is not y for x, y in zip(now, items)):
+            k2, now = self.call(lambda: list(a.obj.tracks))
+            if k2 == "exc" or len(now) != len(items) or any(x is not y for x, y in zip(now, items)):
                 self.v("C16", "I-obj", "assignment-did-not-install-exactly-the-list",
-                       {"wanted": ids[:8], "got": [item_id_from_label(t.label) for t in now][:8]})
+                       {"wanted": ids[:8], "got": repr(now)[:80] if k2 == "exc" else
+                        [item_id_from_label(getattr(t, "label", "")) for t in now][:8]})
                 return
             a.model = new_model
             self.stats["assigns"] += 1
